@@ -594,6 +594,27 @@ fn one_combine(cx: &mut Ctx, parts: &[Option<Vec<u8>>]) {
     }
 }
 
+/// round 5, for C03's census ("no validation builder inserts a movable operator"): every 2- and 3-step keyed sequence
+/// over {inc, odd, val} that contains a validator, skip and log mode, sequentially and with three partitions — gives
+/// C03 a concrete failing input (`VPIPE`) when a validator starts claiming the planner's reorder contract.
+pub fn planner_neighbourhood_cases(cx: &mut Ctx) {
+    let kv = mk_kv(&mk_rows(&[None, Some(vec![1]), Some(vec![2]), None, Some(vec![4, 6]), None, None, Some(vec![3])]));
+    let alphabet = [Step::Inc, Step::Odd, Step::Val];
+    let mut layer: Vec<Vec<Step>> = vec![vec![]];
+    let mut seqs: Vec<Vec<Step>> = vec![];
+    for _ in 0..3 {
+        let mut next = vec![];
+        for s in &layer { for o in alphabet { let mut t = s.clone(); t.push(o); next.push(t); } }
+        seqs.extend(next.iter().filter(|s| s.len() >= 2 && s.contains(&Step::Val)).cloned());
+        layer = next;
+    }
+    for steps in &seqs {
+        for m in [Mode::Skip, Mode::Log] {
+            for e in [Exec::Seq, Exec::Par(3)] { case_vpipe(cx, m, true, &Coll::fresh(), e, steps, &kv); }
+        }
+    }
+}
+
 // ---------------------------------------------------------------- fused blocks through the planner (VPIPE)
 
 #[derive(Clone, Copy, PartialEq, Eq, Debug)]
